@@ -35,7 +35,12 @@ def history(ctx, case):
             sent = what.endswith('sent')
             name = 'get_registry' if what.startswith('greg') else 'sync'
             # the process is a nested compositor: the first address is a connection it holds as a client, the second one it serves
+            n_out = len(w.out.items)
             ret = gdbworld.fire_message(w, ADDRS[a], thread, name, sent, tag, side='client' if a == 0 else 'server')
+            from core import util
+            shown = [util.no_color(x) for x in w.out.items[n_out:] if ('.' + name + '(') in x]
+            ctx.check('the message is displayed once, naming the object it was attributed to with its incarnation letter (whatever the thread)',
+                      len(shown) == 1 and 'wl_display@1a.' + name + '(' in shown[0])
             ctx.check('stop() tells GDB to keep running (no breakpoint matcher set)', ret is False)
             if not cur:
                 role = (not sent) if name == 'get_registry' else None
